@@ -180,11 +180,14 @@ pub fn resolve_once(
     w.lock().unwrap().begin_resolution();
     comp.rounds.clear();
     comp.ops.borrow_mut().clear();
+    comp.compiles = 0;
+    comp.overrun = false;
+    comp.round_limit = Some(max_rounds.max(3) + 2 + 3);
     let store = SimStore::new(w);
     let any = AnyTir::V1Beta0(tx.clone());
     let (end, stats) = {
         let fut = tx3_resolver::resolve_tx(any, args, comp, &store, max_rounds);
-        drive(w, fut, cancel_after, 20_000)
+        drive(w, fut, cancel_after, 4_000)
     };
     let outcome = match end {
         RunEnd::Done(Ok(c)) => Outcome::Ok(crate::compiler::copy_compiled(&c)),
@@ -549,7 +552,11 @@ pub fn check_balance(
     ctx: &str,
 ) {
     let mut consumed = Value::new();
-    for i in &d.inputs {
+    // the ledger treats the inputs as a set: a UTxO listed twice is still spent once
+    let mut distinct: Vec<&RefKey> = d.inputs.iter().collect();
+    distinct.sort();
+    distinct.dedup();
+    for i in distinct {
         match served.get(i) {
             Some(u) => value_add(&mut consumed, &u.value),
             None => return, // C03/S6 or C04 speak about this
@@ -921,6 +928,7 @@ pub fn check_echo(
         for (spec, o) in live.iter().zip(d.outputs.iter()) {
             if let Some(DatumSpec::Rec(q)) | Some(DatumSpec::Spread(q, _)) = &spec.datum {
                 if let Some(v) = q_val(q, args) {
+                    rep.probe(&format!("echo-datum:{}", range_class(v)));
                     let got = match &o.datum {
                         Some(ciborium::value::Value::Tag(121, inner)) => inner
                             .as_array()
